@@ -193,6 +193,8 @@ impl BufferManager {
             }
         }
 
+        #[cfg(grafeo_verif)]
+        crate::verif::yield_point("buf.try_allocate.between_check_and_add");
         // Perform allocation
         self.allocated.fetch_add(size, Ordering::Relaxed);
         self.region_allocated[region.index()].fetch_add(size, Ordering::Relaxed);
